@@ -1,1 +1,100 @@
-From CV Require Import Model.Pdo.
+(* C05 - PDO variables occupy exactly their mapped bits.
+   Statements only; proofs in Proofs/Pdo_proofs.v.  Model: Model/Pdo.v (PdoMap.add_variable,
+   _update_data_size, PdoVariable.get_data / set_data composed with Variable.raw), data type
+   table Gen/Tables.v regenerated from /repo on every run.
+   A frame is a list of bytes; the frame "as a number" is le_decode frame, whose bit i is bit
+   (i mod 8) of byte (i / 8) (Base.Bytes.le_decode_testbit): bit 0 of byte 0 first. *)
+From Coq Require Import ZArith List Bool.
+From CV Require Import Base.Val Base.Bytes Base.Bits Base.Tys Gen.Tables Model.Codec Model.Pdo
+  Proofs.Codec_proofs Proofs.Pdo_proofs.
+Import ListNotations.
+Open Scope Z_scope.
+
+(* Layout: offsets are the prefix sums of the mapped lengths, the fields are pairwise disjoint and
+   lie inside the frame, and the frame has ceil(total/8) bytes. *)
+Theorem C05_layout : forall es, Forall (fun e => 0 <= e_len e) es ->
+  length (offsets es) = length es /\
+  (forall k e off, nth_error es k = Some e -> nth_error (offsets es) k = Some off ->
+     off = total_bits (firstn k es) /\ 0 <= off /\ off + e_len e <= total_bits es) /\
+  (forall i j ei ej oi oj, (i < j)%nat -> nth_error es i = Some ei -> nth_error es j = Some ej ->
+     nth_error (offsets es) i = Some oi -> nth_error (offsets es) j = Some oj -> oi + e_len ei <= oj) /\
+  8 * (frame_len es - 1) < total_bits es <= 8 * frame_len es.
+Proof. exact layout_offsets. Qed.
+
+(* Reading: the value is exactly the bit field [off, off+len) of the frame, sign-extended from
+   the mapped length for signed types.  entry_is says what may be mapped: an integer object with
+   its own length (or a sub-byte length for the 8-bit types), BOOLEAN as one bit, REAL32/64. *)
+Theorem C05_read_is_field : forall frame dt off len ft,
+  bytes_ok frame -> entry_is dt len ft -> 0 <= off -> off + len <= 8 * zlen frame ->
+  pdo_read frame dt off len = Ok (field_value ft len (get_field (le_decode frame) off len)).
+Proof. exact pdo_read_spec. Qed.
+
+(* Writing: the frame keeps its length and, bit by bit, the field takes the value's low bits while
+   every other bit is unchanged. *)
+Theorem C05_write_changes_exactly_the_field : forall frame dt off len ft v,
+  bytes_ok frame -> entry_is dt len ft -> fits ft v -> 0 <= off -> off + len <= 8 * zlen frame ->
+  exists frame', pdo_write frame dt off len (write_value ft v) = Ok frame' /\
+    length frame' = length frame /\ bytes_ok frame' /\
+    forall i, 0 <= i ->
+      Z.testbit (nth (Z.to_nat (i / 8)) frame' 0) (i mod 8) =
+      if (off <=? i) && (i <? off + len) then Z.testbit v (i - off)
+      else Z.testbit (nth (Z.to_nat (i / 8)) frame 0) (i mod 8).
+Proof. exact pdo_write_bits. Qed.
+
+Theorem C05_write_as_number : forall frame dt off len ft v,
+  bytes_ok frame -> entry_is dt len ft -> fits ft v -> 0 <= off -> off + len <= 8 * zlen frame ->
+  exists frame', pdo_write frame dt off len (write_value ft v) = Ok frame' /\
+                 zlen frame' = zlen frame /\ bytes_ok frame' /\
+                 le_decode frame' = set_field (le_decode frame) off len v.
+Proof. exact pdo_write_spec. Qed.
+
+(* A value outside the object's range is refused (no new frame exists). *)
+Theorem C05_write_rejects_out_of_range : forall frame dt off len s w p v,
+  zassoc dt STRUCT_TYPES = Some p -> int_packer p = Some (s, w) -> in_range s w v = false ->
+  pdo_write frame dt off len (PInt v) = Err E_VALUE.
+Proof. exact pdo_write_rejects. Qed.
+
+(* Consequences: read-after-write and non-interference. *)
+Theorem C05_read_after_write : forall frame dt off len ft v,
+  bytes_ok frame -> entry_is dt len ft -> fits ft v -> 0 <= off -> off + len <= 8 * zlen frame ->
+  exists frame', pdo_write frame dt off len (write_value ft v) = Ok frame' /\
+    pdo_read frame' dt off len = Ok (field_value ft len (v mod 2 ^ len)).
+Proof. exact pdo_read_after_write. Qed.
+
+Theorem C05_full_length_value_unchanged : forall ft dt w v, entry_is dt w ft -> fits ft v ->
+  match ft with FInt _ w' => w = w' | _ => True end ->
+  field_value ft w (v mod 2 ^ w) = write_value ft v.
+Proof. exact full_field_value. Qed.
+
+Theorem C05_write_preserves_neighbours : forall frame dt off len ft v dt2 off2 len2 ft2,
+  bytes_ok frame -> entry_is dt len ft -> fits ft v -> 0 <= off -> off + len <= 8 * zlen frame ->
+  entry_is dt2 len2 ft2 -> 0 <= off2 -> off2 + len2 <= 8 * zlen frame ->
+  off2 + len2 <= off \/ off + len <= off2 ->
+  exists frame', pdo_write frame dt off len (write_value ft v) = Ok frame' /\
+    pdo_read frame' dt2 off2 len2 = pdo_read frame dt2 off2 len2.
+Proof. exact pdo_write_preserves_other. Qed.
+
+(* ---- non-vacuity ---- *)
+(* [BOOLEAN:1, INTEGER16:16, INTEGER8:4] : an unaligned signed 16-bit field and a signed nibble *)
+Example C05_nv_layout :
+  let es := [{| e_dt := 1; e_len := 1 |}; {| e_dt := 3; e_len := 16 |}; {| e_dt := 2; e_len := 4 |}] in
+  offsets es = [0; 1; 17] /\ frame_len es = 3 /\
+  entry_is 3 16 (FInt true 16) /\ entry_is 2 4 (FInt true 8) /\ entry_is 1 1 FBool /\ entry_is 8 32 (FReal 32) /\
+  fits (FInt true 16) (-32768) /\
+  pdo_read [255; 255; 255] 3 1 16 = Ok (PInt (-1)) /\
+  pdo_read [0; 0; 16] 2 17 4 = Ok (PInt (-8)) /\
+  pdo_write [0; 0; 0] 3 1 16 (PInt (-32768)) = Ok [0; 0; 1].
+Proof.
+  cbn zeta. repeat split; try (vm_compute; reflexivity).
+  - exists (PStruct true 16). vm_compute. auto.
+  - exists (PStruct true 8). vm_compute. split; [reflexivity|]. split; [reflexivity|]. right. repeat split; discriminate.
+Qed.
+
+Print Assumptions C05_layout.
+Print Assumptions C05_read_is_field.
+Print Assumptions C05_write_changes_exactly_the_field.
+Print Assumptions C05_write_as_number.
+Print Assumptions C05_write_rejects_out_of_range.
+Print Assumptions C05_read_after_write.
+Print Assumptions C05_full_length_value_unchanged.
+Print Assumptions C05_write_preserves_neighbours.
